@@ -2,7 +2,7 @@
    every operation of FatVol.Model ([step]: file_op / unlink / mkdir / rmdir / rename) as the
    list of its ELEMENTARY STORES in the order nobodd/path.py + nobodd/fs.py perform them.
    [micro s o] is that list, [apply_m] performs one of them; folding the whole list gives
-   exactly [fst (step s o)] (FatCrash/ProofsRefine.v: micro_refines_step).  Every prefix of the
+   exactly [fst (step s o)] (ProofsRefine.v: micro_refines_step_uncond; Proofs.v: micro_refines_step).  Every prefix of the
    list is a possible crash point.
 
    Elementary stores, as the code makes them (record level; cluster DATA is not part of [vol]):
@@ -27,7 +27,10 @@
                   reader can see in between)
      MView id l   (only in micro_x) the decoded records of directory id are now l
      MReg c / MForget c   ghost steps (no store): directory c becomes reachable (mkdir: its entry
-                  was just stored) / unreachable (rmdir: its entry was just deleted)
+                  was just stored) / unreachable (rmdir: its entry was just deleted).  MReg is
+                  placed after the whole group of the entry is stored; when the 8.3 record of a
+                  long-named directory is decoded one store earlier (two MTail) the zeroed, empty
+                  directory is reachable from then on -- not distinguished at record level
      MDot c v, MDotDot c v   the '.' / '..' records of directory c
    Order per operation, as read off the code (see [micro] and the comments at each generator). *)
 From Coq Require Import List NArith Bool.
